@@ -200,6 +200,9 @@ impl ClientHello {
             random_bytes,
         };
 
+        if buf.is_empty() {
+            bail!("ClientHello too short for session_id length");
+        }
         let session_id_len = buf.get_u8() as usize;
         if buf.len() < session_id_len {
             bail!("ClientHello too short for session_id");
